@@ -9,6 +9,7 @@ import (
 	"strings"
 	"testing"
 
+	"github.com/Eyevinn/mp4ff/mp4"
 	"pgregory.net/rapid"
 
 	"verif/internal/boxprop"
@@ -23,9 +24,10 @@ func init() { harness.RegisterReplay("roundtrip", harness.Replayer(checkRoundTri
 func TestReplay(t *testing.T) { harness.ReplayPath(t) }
 
 type outcome struct {
-	accepted bool
-	stats    boxprop.CmpStats
-	types    []string
+	accepted  bool
+	stats     boxprop.CmpStats
+	types     []string
+	fileShape bool
 }
 
 var last outcome
@@ -81,6 +83,11 @@ func checkRoundTrip(c boxprop.Case) *harness.Fail {
 		// the grouping into segments can depend on absolute positions (sidx anchors, tfra offsets), which
 		// move when a normalisation changed lengths or order: compare the box trees only
 		diff = boxprop.DeepDiff(d1b.File.Children, d2.File.Children, opt)
+		last.fileShape = true
+		if diff == "" {
+			// what does not depend on positions is compared all the same
+			diff = fileShapeDiff(d1b.File, d2.File)
+		}
 	} else if c.Level == "file" {
 		diff = boxprop.DeepDiff(d1b.File, d2.File, opt)
 	} else {
@@ -102,6 +109,39 @@ func checkRoundTrip(c boxprop.Case) *harness.Fail {
 		last.types = append(last.types, b.Type)
 	}
 	return nil
+}
+
+// fileShapeDiff compares the parts of the File grouping that do not depend on absolute positions: the first segment
+// starts at the first styp/moof/emsg/prft whatever the indexes say, so the split of the sidx boxes into top-level ones
+// and segment ones, the presence of an init segment, of segments and of an mfra box, the number of segments that start
+// with a styp box and IsFragmented are the same for two files with equal box trees.
+func fileShapeDiff(a, b *mp4.File) string {
+	styps := func(f *mp4.File) int {
+		n := 0
+		for _, s := range f.Segments {
+			if s.Styp != nil {
+				n++
+			}
+		}
+		return n
+	}
+	switch {
+	case a.IsFragmented() != b.IsFragmented():
+		return fmt.Sprintf("File.IsFragmented: %v vs %v", a.IsFragmented(), b.IsFragmented())
+	case (a.Init == nil) != (b.Init == nil):
+		return fmt.Sprintf("File.Init present: %v vs %v", a.Init != nil, b.Init != nil)
+	case (a.Ftyp == nil) != (b.Ftyp == nil) || (a.Moov == nil) != (b.Moov == nil) || (a.Mdat == nil) != (b.Mdat == nil):
+		return fmt.Sprintf("File.Ftyp/Moov/Mdat present: %v/%v/%v vs %v/%v/%v", a.Ftyp != nil, a.Moov != nil, a.Mdat != nil, b.Ftyp != nil, b.Moov != nil, b.Mdat != nil)
+	case (a.Mfra == nil) != (b.Mfra == nil):
+		return fmt.Sprintf("File.Mfra present: %v vs %v", a.Mfra != nil, b.Mfra != nil)
+	case (a.Sidx == nil) != (b.Sidx == nil) || len(a.Sidxs) != len(b.Sidxs):
+		return fmt.Sprintf("File.Sidxs: %d vs %d top-level sidx boxes", len(a.Sidxs), len(b.Sidxs))
+	case (len(a.Segments) == 0) != (len(b.Segments) == 0):
+		return fmt.Sprintf("File.Segments: %d vs %d", len(a.Segments), len(b.Segments))
+	case styps(a) != styps(b):
+		return fmt.Sprintf("File.Segments starting with styp: %d vs %d", styps(a), styps(b))
+	}
+	return ""
 }
 
 func topType(in []byte) string {
@@ -163,7 +203,7 @@ func run(t *testing.T, name string, cfg boxprop.GenConfig) {
 		c := boxprop.Gen(rt, cfg)
 		raw, _ := json.Marshal(c)
 		f := harness.Guarded(func() *harness.Fail { return checkRoundTrip(c) })
-		cls := []string{"level-" + c.Level, "path-" + c.Path}
+		cls := []string{"level-" + c.Level, "path-" + c.Path, "seedkind-" + c.SeedKind()}
 		if c.Synth != nil {
 			cls = append(cls, "synth", "synth-"+c.Origin)
 		}
@@ -188,6 +228,15 @@ func run(t *testing.T, name string, cfg boxprop.GenConfig) {
 		}
 		if last.stats.Malformed > 0 {
 			cls = append(cls, "c01-accepted-input-with-inconsistent-sizes(no byte claim)")
+		}
+		if last.stats.NotCovered > 0 {
+			cls = append(cls, "c01-accepted-input-not-covered-by-walker(no byte claim)")
+		}
+		if last.stats.MoovOrderChk > 0 {
+			cls = append(cls, "c01-moov-relative-order-judged")
+		}
+		if last.fileShape {
+			cls = append(cls, "c01-file-shape-compared(output differs)")
 		}
 		if last.stats.MaskedBytes > 0 {
 			cls = append(cls, "c01-masked-bytes-differ")
